@@ -19,7 +19,8 @@ RULE = ('events: random histories of connect/disconnect/emit/emit_until_result (
         'PickleStorage and Hdf5Storage, on the Lean DictCache model and on a dict oracle; non-trivial = a read of '
         'a previously written key plus a delete/overwrite/short-term/preload/sub-cache operation. threaded: random '
         'DictCache programs (length <=8, 1-3 keys, optional sub-cache, max_queue_size 1-3, 30% with an injected '
-        'disk fault) on the REAL Worker/ThreadedStorage/PickleStorage under a seeded cooperative scheduler; the '
+        'disk fault; 35% are key-life-cycle scenarios set/preload/delete-or-overwrite/set/leave-short-term-keys/read '
+        'with a lagging or leading worker) on the REAL Worker/ThreadedStorage/PickleStorage under a seeded cooperative scheduler; the '
         'recorded schedule is replayed on the Lean transition system and labels, enabled sets, call results and '
         'final state are compared; plus depth-first enumeration of all schedules (modulo idle polling, bounded '
         'preemptions) of short programs over 2 keys; non-trivial = >=4 thread switches and >=1 disk operation by '
